@@ -2,6 +2,7 @@
 from __future__ import annotations
 
 import itertools
+import os
 import warnings
 
 from markupsafe import Markup
@@ -77,7 +78,7 @@ FORMS_SUB = [f for f in FORMS if f.name in (
     "bin:+", "bin:**", "bin:~", "cmp:==", "and", "un:-", "cond", "f:upper", "f:safe", "f:escape", "f:join", "f:replace",
     "f:default(<d>)", "t:defined", "item:0", "slice:-:2:-", "list2")]
 
-FORMS_D3 = [f for f in FORMS if f.name in ("bin:+", "bin:**", "bin:~", "un:-", "cond-", "f:safe", "f:upper", "item:0")]
+FORMS_D3 = [f for f in FORMS if f.name in ("bin:+", "bin:**", "bin:~", "un:-", "cond-", "f:safe", "item:0")]
 
 LEAF_VECTORS = [
     [G.Str("<a>"), G.Int(2), SAFE("<s>"), G.Int(1), G.Str("a"), G.List(G.Int(1), G.Str("<b>"))],
@@ -332,12 +333,18 @@ def run(ctx: core.Ctx):
     ctx.assumptions += ["lifting replaces a literal by a context variable holding the equal Python value (Markup for "
                         "`\"..\"|safe`); containers are lifted leaf-wise", "exceptions compared by class name",
                         "`sameas` not generated"]
-    ctx.pmap(depth01_shard, [(quick, i) for i in range(-1, len(FORMS))])
+    d1 = [(quick, i) for i in range(-1, len(FORMS))]
+    if os.environ.get("VERIF_SMOKE"):
+        d1 = d1[::int(os.environ["VERIF_SMOKE"])]
+    ctx.pmap(depth01_shard, d1)
     plan = [("d2-sub", space("d2-sub").count(), 3, 1, 200)] if quick else [
         ("d2", space("d2").count(), 3, 2, 300), ("d3", space("d3").count(), 1, 1, 2000)]
     shards = []
     for sname, cnt, nvec, nctx, chunk in plan:
         shards += [(sname, a, b, nvec, nctx) for a, b in ranges(cnt, chunk)]
+    if os.environ.get("VERIF_SMOKE"):
+        shards = shards[::int(os.environ["VERIF_SMOKE"])]
+        ctx.cap_hit("VERIF_SMOKE: only every n-th shape shard was run")
     ctx.pmap(shape_shard, shards)
     ctx.cov["bounds"] = {"forms": len(FORMS), "atoms_arity1": len(ATOMS_QUICK if quick else ATOMS_FULL),
                          "atoms_arity2": len(ATOMS_QUICK2 if quick else ATOMS_FULL), "atoms_arity3": 3 if quick else len(ATOMS_3), "contexts": len(CONTEXTS),
